@@ -129,7 +129,26 @@ class C12(Prop):
             dict(base, ops=[{'op': 'orderBy', 'keys': [{'e': col(0), 'asc': False, 'nullsFirst': True},
                                                          {'e': col(1), 'asc': True, 'nullsFirst': False}]}]),
             dict(base, ops=[{'op': 'drop', 'names': ['missing', 'b']}]),
-        ]
+        ] + self.moving_columns()
+
+    @staticmethod
+    def moving_columns():
+        """the same column NAME is referenced before and after an operation that moves it to another position (the harness
+        uses one Column object per name for the whole chain, as a program holding on to `col("c")` does)"""
+        col = lambda i: {'op': 'col', 'i': i}  # noqa: E731
+        lit = lambda v: {'op': 'lit', 'v': G.sv(v)}  # noqa: E731
+        t = {'names': ['a', 'b', 'c'], 'types': ['int', 'int', 'int'], 'parts': 2, 'ordered': True,
+             'rows': [[G.sv(1), G.sv(10), G.sv(5)], [G.sv(2), G.sv(20), G.sv(1)], [G.sv(3), None, G.sv(7)], [G.sv(4), G.sv(40), None]]}
+        gt = lambda i, v: {'op': 'gt', 'a': col(i), 'b': lit(v)}  # noqa: E731
+        out = []
+        for first in ({'op': 'filter', 'e': gt(2, 0)}, {'op': 'withColumn', 'name': 'd', 'e': {'op': 'add', 'a': col(2), 'b': col(1)}},
+                      {'op': 'orderBy', 'keys': [{'e': col(2), 'asc': True, 'nullsFirst': True}]}):
+            # after drop(['a']) the columns are b, c[, d]: c sits at position 1
+            for last in ({'op': 'filter', 'e': gt(1, 2)}, {'op': 'withColumn', 'name': 'e', 'e': {'op': 'mul', 'a': col(1), 'b': col(0)}},
+                         {'op': 'orderBy', 'keys': [{'e': col(1), 'asc': False, 'nullsFirst': False}]},
+                         {'op': 'select', 'cols': [{'e': col(1), 'name': 'x'}, {'e': {'op': 'sub', 'a': col(1), 'b': col(0)}, 'name': 'y'}]}):
+                out.append(dict(t, ops=[first, {'op': 'drop', 'names': ['a']}, last]))
+        return out
 
     def nontrivial(self, case):
         return len(case['rows']) > 0 and not all(G.is_constant(o) for o in case['ops'])
@@ -158,28 +177,29 @@ class C12(Prop):
         from pysparkling.sql import functions as F
         names = list(case['names'])
         nconst = 0
+        colcache = {} if case.get('reuse_columns', True) else None      # one Column object per name for the whole chain
         try:
             df = self.make_df(case['names'], case['types'], case['rows'], case['parts'])
             for o in case['ops']:
                 op = o['op']
                 ctx.note('op:' + op)
                 if op == 'select':
-                    df = df.select(*[G.to_column(c['e'], names).alias(c['name']) for c in o['cols']])
+                    df = df.select(*[G.to_column(c['e'], names, colcache).alias(c['name']) for c in o['cols']])
                     nconst += sum(1 for c in o['cols'] if G.is_constant(c['e']))
                     ctx.note('expressions_total', len(o['cols']))
                     names = [c['name'] for c in o['cols']]
                 elif op == 'withColumn':
-                    df = df.withColumn(o['name'], G.to_column(o['e'], names))
+                    df = df.withColumn(o['name'], G.to_column(o['e'], names, colcache))
                     if o['name'] not in names:
                         names = names + [o['name']]
                 elif op == 'filter':
-                    df = df.filter(G.to_column(o['e'], names))
+                    df = df.filter(G.to_column(o['e'], names, colcache))
                     nconst += 1 if G.is_constant(o['e']) else 0
                     ctx.note('expressions_total')
                 elif op == 'orderBy':
                     keys = []
                     for k in o['keys']:
-                        c = G.to_column(k['e'], names)
+                        c = G.to_column(k['e'], names, colcache)
                         keys.append({(True, True): c.asc_nulls_first, (True, False): c.asc_nulls_last,
                                      (False, True): c.desc_nulls_first, (False, False): c.desc_nulls_last}[(k['asc'], k['nullsFirst'])]())
                     df = df.orderBy(*keys)
